@@ -91,7 +91,6 @@ Definition call (f : val) (args : list val) : list val :=
 
 Record cctx := {
   cx_defer : bool;   (* the call is the operand of a defer statement *)
-  cx_hold : bool;    (* an argument holds a closure built in the calling frame (not a top-level literal) which the callee calls *)
   cx_value : bool    (* script calls script: the callee is a function value (closure variable), called through reflect *)
 }.
 
@@ -159,23 +158,22 @@ Definition y_bind (d : dir) (cx : cctx) (ins : list ty) (variadic : bool) (m : c
   | S2H =>
       (* callBin prepares each argument; reflect binds *)
       let prepared := map2 (fun t v => to_host (vsize v) t v) ats args in
-      if cx_defer cx && cx_hold cx then
-        (* runCfg runs deferred calls holding the frame mutex; the closure's epilogue takes it again *)
-        bad_all ins (s "timeout")
-      else
-        map host_view
-          match m with
-          | MPlain => prepared
-          | MInd => reflect_pack n prepared
-          | MSpread =>
-              if cx_defer cx then
-                (* deferred: val[0].Call(val[1:]) — Call, not CallSlice: the slice is one extra argument *)
-                match elem_ty ins with
-                | TAny => firstn n prepared ++ [VSlice [VIface (TSlice TAny) (last prepared VNil)]]
-                | _ => bad_all ins (s "panic")
-                end
-              else prepared
-          end
+      (* since abe7a69 the wrapper of a function literal (getFunc) takes no lock when a call ends:
+         a deferred host call may call back any closure it is given (runCfg runs the deferred calls
+         holding the frame mutex; before, the closure's epilogue took it again and the call hung) *)
+      map host_view
+        match m with
+        | MPlain => prepared
+        | MInd => reflect_pack n prepared
+        | MSpread =>
+            if cx_defer cx then
+              (* deferred: val[0].Call(val[1:]) — Call, not CallSlice: the slice is one extra argument *)
+              match elem_ty ins with
+              | TAny => firstn n prepared ++ [VSlice [VIface (TSlice TAny) (last prepared VNil)]]
+              | _ => bad_all ins (s "panic")
+              end
+            else prepared
+        end
   | H2S => bind_through_wrapper ins n m args
   | S2S =>
       if cx_value cx then
@@ -374,4 +372,101 @@ Definition g_host_sees (script_methods : list str) (q : wprobe) : bool :=
   match q with
   | WMethod m => mem m script_methods
   | WComparable => true
+  end.
+
+(* ------------------------------------------------------------------ *)
+(** * Script types that embed host interfaces / host types, handed to the host as a host interface *)
+
+(** Who runs a method the host calls on the value it was handed. *)
+Inductive who :=
+| WScript      (* the script's override *)
+| WHost        (* the embedded host value's method (promotion) *)
+| WBoth        (* the script's override, which delegates to the embedded value *)
+| WFailBuild   (* genInterfaceWrapper panics "method not found": nothing is called at all *)
+| WFailCall    (* the call panics (reflect.StructOf's stub for a method of an embedded interface) *)
+| WNone.       (* not reached *)
+
+Inductive layout := LOnly | LFirst | LLast.   (* the embedded field is the only one / first / last *)
+
+(** What genInterfaceWrapper's decisions depend on. The last three are facts about [reflect],
+    measured natively by the harness on a reconstruction of the frame type (reflect is assumed: e.g.
+    StructOf hands back a compiled type of the host binary, with real methods, when one exists). *)
+Record efacts := {
+  ef_ptr : bool;          (* the value handed over is a *T *)
+  ef_layout : layout;
+  ef_implements : bool;   (* reflect: the frame type (T or *T) implements the host interface *)
+  ef_nummeth : bool;      (* reflect: the struct type has (promoted) methods: single embedded field *)
+  ef_real : bool          (* reflect: those promoted methods can be called (not panicking stubs) *)
+}.
+
+(** genInterfaceWrapper (run.go): a non-struct value whose frame type implements the interface is
+    handed over as it is — reflect then dispatches to the promoted methods and the script's overrides
+    are skipped; a struct value always gets the wrapper: an overridden method is bound to the script's
+    method; for any other, methodByName looks on the "concrete value" — the value itself if its reflect
+    type has methods, else (getConcreteValue) its LAST field; through a pointer the embedded field
+    is reached by its index. *)
+Definition y_one (f : efacts) (over : list str) (delegate : bool) (m : str) : who :=
+  if ef_ptr f && ef_implements f then (if ef_real f then WHost else WFailCall)
+  else if mem m over then (if delegate then WBoth else WScript)
+  else if ef_ptr f then WHost
+  else if ef_nummeth f then (if ef_real f then WHost else WFailCall)
+  else match ef_layout f with LFirst => WFailBuild | _ => WHost end.
+
+Definition is_failbuild (w : who) : bool := match w with WFailBuild => true | _ => false end.
+
+(** The host calls the methods in order; a panicking call ends the use. *)
+Fixpoint run_calls (l : list who) (failed : bool) : list who * bool :=
+  match l with
+  | [] => ([], failed)
+  | w :: l' =>
+      if failed then let (r, b) := run_calls l' true in (WNone :: r, b)
+      else match w with
+           | WFailCall => let (r, b) := run_calls l' true in (WNone :: r, b)
+           | _ => let (r, b) := run_calls l' false in (w :: r, b)
+           end
+  end.
+
+Definition y_dispatch (f : efacts) (over : list str) (delegate : bool) (methods : list str) : list who * bool :=
+  let ws := map (y_one f over delegate) methods in
+  if existsb is_failbuild ws then (map (fun _ => WNone) methods, true) else run_calls ws false.
+
+(** Go: the method set of T / *T — an override shadows the promoted method. *)
+Definition g_one (over : list str) (delegate : bool) (m : str) : who :=
+  if mem m over then (if delegate then WBoth else WScript) else WHost.
+
+Definition g_dispatch (over : list str) (delegate : bool) (methods : list str) : list who * bool :=
+  (map (g_one over delegate) methods, false).
+
+(* ------------------------------------------------------------------ *)
+(** * A function value kept by the host across the session *)
+
+(** What happens on the interpreter between two uses of a function value obtained from it. *)
+Inductive step :=
+| SEval        (* an evaluation that reaches Execute (it may define or redefine symbols, panic, call
+                  the function itself): Execute stamps the global frame with the interpreter's run id *)
+| SEvalFail    (* an evaluation that fails to compile: Execute is not reached *)
+| SCancel      (* an EvalWithContext that is cancelled: Execute stamps the frame, then stop() bumps the
+                  interpreter's run id *)
+| SCallNative. (* the host calls the function value *)
+
+Inductive outcome := OOk | OZero.
+
+(** genFunctionWrapper's native function starts its frame from the global frame and reads that
+    frame's run id AT EACH CALL; runCfg executes nothing when the id is not the interpreter's: the
+    wrapper then returns its zeroed result slots. [live] = "the global frame carries the current id". *)
+Fixpoint y_session (live : bool) (h : list step) : list outcome :=
+  match h with
+  | [] => []
+  | SEval :: h' => y_session true h'
+  | SEvalFail :: h' => y_session live h'
+  | SCancel :: h' => y_session false h'
+  | SCallNative :: h' => (if live then OOk else OZero) :: y_session live h'
+  end.
+
+(** The contract: at any later point of the session the native call behaves like the call inside the script. *)
+Fixpoint g_session (h : list step) : list outcome :=
+  match h with
+  | [] => []
+  | SCallNative :: h' => OOk :: g_session h'
+  | _ :: h' => g_session h'
   end.
